@@ -55,7 +55,7 @@ func PlanFor(prop, tier string) (*Plan, error) {
 		p.Monitors = func() []Monitor { return []Monitor{NewC08(), NewC12()} }
 		p.Rule = "lifecycle scenarios with blocks before / exactly at / after every start, end, extended end and release instant (jumps and +1h ticks), bids / modifications / cancels attempted in every status; every auction's status and end times after every transition are compared with the reference step function; non-trivial = distinct (pre-state, step) pairs in which a lifecycle step happened"
 	case "C12":
-		p.Scenarios = []*Scenario{S1a(tier, true), S2a(tier, false), S3(tier, false)}
+		p.Scenarios = []*Scenario{S1a(tier, true), S2a(tier, false), S3(tier, false), S1d(tier)}
 		for _, sc := range p.Scenarios {
 			sc.withRejectsTerminal()
 		}
